@@ -1,5 +1,6 @@
 import Andes.Model.Hex
 import Andes.Model.TdsDriver
+import Andes.Model.ConfigDriver
 import Andes.Model.RegistryDriver
 import Andes.Model.ExprDriver
 import Andes.Model.IslandDriver
@@ -22,6 +23,7 @@ def handle (line : String) : String :=
   | "ev" :: args => Andes.Expr.handleEv args
   | "reg" :: args => Andes.Registry.handleReg args
   | "uniq" :: args => Andes.Registry.handleUniq args
+  | "cfg" :: args => Andes.Config.handle args
   | _ => "bad-op"
 
 partial def loop (h : IO.FS.Stream) : IO Unit := do
